@@ -14,13 +14,7 @@ from ..roles import classify_sink, dry_fact, handle_writes, is_dry_expr
 
 RUN = "codemodder.codemodder.run"
 
-# sinks that are not project content: (function, sink kind) -> reason
-EXEMPT = {
-    ("codemodder.codetf.CodeTF.write_report", "open-write"): "the report named by --output is not project content",
-    ("codemodder.codemods.semgrep._create_temp_yaml_file", "fdopen-write"): "handle returned by tempfile.mkstemp(): temporary semgrep rule file",
-}
-
-
+# sinks that are not project content are exempt by the *shape* that justifies it (never by the name of the function they sit in)
 def reachable_sinks(ctx):
     reach = ctx.cg.reachable([RUN])
     out = []
@@ -36,22 +30,29 @@ def reachable_sinks(ctx):
 
 
 def exempt_reason(ctx, fn: FuncInfo, sink) -> str | None:
-    reason = EXEMPT.get((fn.qname, sink.kind))
-    if reason is None:
-        return None
-    # the exemption is tied to the shape that justifies it
     if sink.kind == "fdopen-write":
+        # a descriptor handed out by tempfile.mkstemp() in the same function: a fresh temporary file
         fd = sink.path
-        ok = False
         if isinstance(fd, ast.Name):
             for n in walk_no_nested(fn.node):
-                if isinstance(n, ast.Assign) and isinstance(n.value, ast.Call) and (call_name(n.value) or "").endswith("mkstemp"):
+                if isinstance(n, ast.Assign) and isinstance(n.value, ast.Call) and (ctx.resolver(fn).callee_qname(n.value) or call_name(n.value) or "").endswith("mkstemp"):
                     if fd.id in {x.id for x in ast.walk(n.targets[0]) if isinstance(x, ast.Name)}:
-                        ok = True
-        return reason if ok else None
+                        return "handle returned by tempfile.mkstemp(): temporary file, not project content"
+        return None
     if sink.kind == "open-write":
-        return reason if isinstance(sink.path, ast.Name) and sink.path.id in fn.params() else None
-    return reason
+        # the report: the path is a parameter and every caller passes the --output option value
+        if isinstance(sink.path, ast.Name) and sink.path.id in fn.params():
+            sites = ctx.cg.sites.get(fn.qname, [])
+            if not sites:
+                return None
+            for caller, call in sites:
+                bound = fn.cls is not None and isinstance(call.func, ast.Attribute)
+                arg = bind_args(call, fn, bound).get(sink.path.id)
+                arg = ctx.resolver(caller).expand(arg) if arg is not None else None
+                if not (isinstance(arg, ast.Attribute) and arg.attr == "output"):
+                    return None
+            return "the report named by --output is not project content"
+    return None
 
 
 class GuardSummary:
